@@ -1407,9 +1407,12 @@ def check(run):
 
 
 def replay(run, rp):
-    c = rp["compiler"]
-    text = rp["output"] if "output" in rp else "".join(map(chr, rp["output_cps"]))
-    filters = rp.get("filters", [])
+    src = rp if "compiler" in rp else rp.get("request")   # broken-correspondence records carry the request
+    if not src or ("output" not in src and "output_cps" not in src):
+        raise HarnessError("replay file names no input (kind=%s): nothing to re-run" % rp.get("kind"))
+    c = src["compiler"]
+    text = rq_output(src)
+    filters = src.get("filters", [])
     ia = impl_analyze(c, text, filters)
     rq = analyze_rq(c, text, filters)
     ma = common.run_driver([rq])[0].get("r")
